@@ -50,7 +50,7 @@ func checkC01(c *Ctx) {
 		Cfg: cfgText("INIT MCInit", "NEXT MCNext", "CONSTANTS", fmt.Sprintf("MaxDepth = %d", maxDepth), "CallLimit = 50", "Fuel = 0",
 			"NextOutsidePattern = {\"ends-rule\", \"runtime-error\"}",
 			"INVARIANTS FrameBalance BaseAtRuleStart DepthBounded NoEscape OutcomeLegalP SigConsumed Vec",
-			"PROPERTIES StopFreezesOutput DoneIsFinal"),
+			"PROPERTIES StopFreezesOutput DoneIsFinal RefinesFrames"),
 		OnVec: func(raw []byte) {
 			var v placeVec
 			VecDecode(raw, &v)
